@@ -17,6 +17,17 @@
 // (every QXmpp::EncryptionMethod of the XEP-0380 marker via setEncryptionMethod / a custom namespace via
 // setEncryptionMethodNs, every message type, optional sub-fields left out: ...NoBy, ...Bare, ...NoTo, ...).
 //
+// CLIENT PATH (second binding of Emit(Public, S)): the composed message is handed to a real QXmppClient
+// (fixture TestClient, fakeSession) with a stub QXmppE2eeExtension installed by setEncryptionExtension():
+//   Send(api, style, how)  api = sendSensitive | reply (with e2ee metadata); the stub's encryptMessage SUCCEEDS and
+//            returns the message as the API contract and QXmppOmemoManager do -- sensitive fields still set, an
+//            encrypted payload element added (style omemo: also XEP-0380 marker, fallback body, fallback marker when
+//            there is a body / trust message); how = ready (finished task) | later (finished from the event loop).
+//            Observation: the <message/> stanzas the client logged as sent (count), the first one's children / root
+//            attributes classified like a public part, every kind's distinctive values searched in its raw text, and
+//            -- for comparison -- toXml(SceAll) / toXml(ScePublic) of the message the stub returned.
+//   SendPlain(api)  api = send | sendPacket: control, never encrypted; the same observation, expected to be in the clear.
+//
 // `qxv sce --list=1` prints the kinds this driver knows (lib/props/C17.py compares with the spec's table).
 #include "fixture.h"
 #include "qxv.h"
@@ -36,6 +47,10 @@
 #include "QXmppSceEnvelope_p.h"
 #include "QXmppTrustMessageElement.h"
 #include "QXmppTrustMessageKeyOwner.h"
+#include "QXmppE2eeExtension.h"
+#include "QXmppE2eeMetadata.h"
+#include "QXmppPromise.h"
+#include "QXmppTask.h"
 #include "QXmppUtils.h"
 
 #include <QBuffer>
@@ -588,6 +603,7 @@ QString classify(const QDomElement &el, bool publicPart)
         { "reject", "urn:xmpp:call-invites:0", "callReject" },
         { "left", "urn:xmpp:call-invites:0", "callLeft" },
         { "fallback", "urn:xmpp:fallback:0", "fallbackMarker" },
+        { "encrypted", "urn:qxv:e2ee:0", "e2eePayload" },  // the stub extension's payload (client path)
     };
     if (tag == "body" && ns == "jabber:client") {
         return publicPart ? QStringLiteral("fallbackBody") : QStringLiteral("body");
@@ -674,6 +690,130 @@ QString sensitiveEnvelope(const Msg &m)
     return QString::fromUtf8(out);
 }
 
+// ---------------------------------------------------------------------------------------------- client path
+// Stub end-to-end encryption: succeeds, and returns the message the way the contract says (QXmppE2eeExtension /
+// QXmppOmemoManagerPrivate::encryptMessage): the sensitive fields stay on the message, the client is expected to
+// strip them by serializing the outer stanza with ScePublic.  The payload is an opaque digest of the sensitive
+// serialization (OMEMO is not built, so it travels as a QXmppElement extension).
+class StubE2ee : public QXmppE2eeExtension
+{
+public:
+    const Table *tab = nullptr;
+    QString style = "plain";
+    bool later = false;
+    int calls = 0;
+    std::optional<Msg> last;  // what encryptMessage returned
+    struct Pending {
+        QXmppPromise<MessageEncryptResult> promise;
+        Msg message;
+    };
+    std::vector<Pending> pending;
+
+    Msg encrypt(Msg m)
+    {
+        const auto digest = QCryptographicHash::hash(sensitiveEnvelope(m).toUtf8(), QCryptographicHash::Sha256).toHex();
+        if (style == "omemo") {
+            m.setFallbackMarkers({});
+            if (!m.body().isEmpty() || m.trustMessageElement()) {
+                m.setEncryptionMethod(QXmpp::Omemo2);
+                m.setEncryptionName({});
+                findKind("fallbackBody")->set(m, tab->token("fallbackBody"), tab->seed);
+                findKind("fallbackMarker")->set(m, tab->token("fallbackMarker"), tab->seed);
+            }
+        }
+        QDomDocument doc;
+        doc.setContent(QStringLiteral("<encrypted xmlns='urn:qxv:e2ee:0'>%1</encrypted>").arg(QString::fromLatin1(digest)), true);
+        auto ext = m.extensions();
+        ext << QXmppElement(doc.documentElement());
+        m.setExtensions(ext);
+        return m;
+    }
+
+    QXmppTask<MessageEncryptResult> encryptMessage(QXmppMessage &&message, const std::optional<QXmppSendStanzaParams> &) override
+    {
+        ++calls;
+        QXmppPromise<MessageEncryptResult> p;
+        auto task = p.task();
+        auto enc = encrypt(std::move(message));
+        last = enc;
+        if (later) {
+            pending.push_back(Pending { p, enc });
+            QMetaObject::invokeMethod(
+                qApp, [this] { finishPending(); }, Qt::QueuedConnection);
+        } else {
+            p.finish(MessageEncryptResult { std::make_unique<Msg>(std::move(enc)) });
+        }
+        return task;
+    }
+    void finishPending()
+    {
+        auto ps = std::move(pending);
+        pending.clear();
+        for (auto &x : ps) {
+            x.promise.finish(MessageEncryptResult { std::make_unique<Msg>(std::move(x.message)) });
+        }
+    }
+    QXmppTask<MessageDecryptResult> decryptMessage(QXmppMessage &&) override
+    {
+        QXmppPromise<MessageDecryptResult> p;
+        p.finish(MessageDecryptResult { NotEncrypted {} });
+        return p.task();
+    }
+    QXmppTask<IqEncryptResult> encryptIq(QXmppIq &&, const std::optional<QXmppSendStanzaParams> &) override
+    {
+        QXmppPromise<IqEncryptResult> p;
+        p.finish(IqEncryptResult { QXmppError { "qxv: IQs are not part of C17", {} } });
+        return p.task();
+    }
+    QXmppTask<IqDecryptResult> decryptIq(const QDomElement &) override
+    {
+        QXmppPromise<IqDecryptResult> p;
+        p.finish(IqDecryptResult { NotEncrypted {} });
+        return p.task();
+    }
+    bool isEncrypted(const QDomElement &) override { return false; }
+    bool isEncrypted(const QXmppMessage &) override { return false; }
+};
+
+struct SendRig {
+    std::unique_ptr<TestClient> client;
+    StubE2ee stub;
+    void start(const Table *tab)
+    {
+        client = std::make_unique<TestClient>(TestClient::NoExtensions);
+        client->fakeSession(false);
+        stub.tab = tab;
+        client->setEncryptionExtension(&stub);
+        client->takeSent();
+    }
+    // the <message/> stanzas among what the client logged as sent
+    QStringList sentMessages()
+    {
+        QStringList r;
+        for (const auto &s : client->takeSent()) {
+            if (s.startsWith("<message")) {
+                r << s;
+            }
+        }
+        return r;
+    }
+    QJsonObject observeWire(const Table &tab, bool publicPart, bool raw)
+    {
+        const auto sent = sentMessages();
+        QJsonObject o { { "sent", sent.size() }, { "wire", QJsonArray() }, { "wtok", QJsonArray() } };
+        if (!sent.isEmpty()) {
+            QDomDocument d;
+            auto el = parseMessageXml(sent[0], d);
+            o["wire"] = jarr(elementKinds(el, true, publicPart));
+            o["wtok"] = jarr(tab.tokensIn(sent.join(QString())));
+            if (raw) {
+                o["wireXml"] = sent.join("\n");
+            }
+        }
+        return o;
+    }
+};
+
 }  // namespace
 
 QXV_DRIVER(sce)
@@ -689,6 +829,8 @@ QXV_DRIVER(sce)
     }
     const bool raw = ctx.optInt("raw", 0);
     Table tab(ctx.seed);
+    SendRig rig;
+    bool rigUp = false;
     auto behs = ctx.behaviours();
     int n = 0;
     for (const auto &bv : behs) {
@@ -765,6 +907,59 @@ QXV_DRIVER(sce)
                     { "xpub", jarr(tab.present(rp)) },
                     { "xsens", jarr(tab.present(rs)) },
                 };
+            } else if (a == "Send" || a == "SendPlain") {
+                if (split) {
+                    break;
+                }
+                if (!rigUp) {
+                    rig.start(&tab);
+                    rigUp = true;
+                }
+                rig.client->takeSent();
+                const auto api = s["api"].toString();
+                ev["api"] = api;
+                QJsonObject o;
+                if (a == "Send") {
+                    rig.stub.style = s["style"].toString();
+                    rig.stub.later = s["how"].toString() == "later";
+                    rig.stub.last.reset();
+                    ev["style"] = rig.stub.style;
+                    ev["how"] = s["how"];
+                    const int calls0 = rig.stub.calls;
+                    bool finished = false;
+                    auto task = api == "reply" ? [&] {
+                        QXmppE2eeMetadata md;
+                        md.setEncryption(QXmpp::Omemo2);
+                        return rig.client->reply(Msg(m), md);
+                    }()
+                                               : rig.client->sendSensitive(Msg(m));
+                    task.then(rig.client.get(), [&finished](QXmpp::SendResult &&) { finished = true; });
+                    // quiescence: the stub has no unfinished task left and posted events are delivered
+                    for (int spin = 0; spin < 50 && (!rig.stub.pending.empty() || spin == 0); ++spin) {
+                        QCoreApplication::processEvents();
+                    }
+                    o = rig.observeWire(tab, true, raw);
+                    o["encryptCalls"] = rig.stub.calls - calls0;
+                    if (rig.stub.last) {
+                        QDomDocument d1, d2;
+                        o["call"] = jarr(elementKinds(parseMessageXml(toXmlMode(*rig.stub.last, QXmpp::SceAll), d1), true, false));
+                        o["cpub"] = jarr(elementKinds(parseMessageXml(toXmlMode(*rig.stub.last, QXmpp::ScePublic), d2), true, true));
+                    } else {
+                        o["call"] = QJsonArray();
+                        o["cpub"] = QJsonArray();
+                    }
+                } else {
+                    if (api == "send") {
+                        rig.client->send(Msg(m));
+                    } else {
+                        rig.client->sendPacket(m);
+                    }
+                    QCoreApplication::processEvents();
+                    o = rig.observeWire(tab, false, raw);
+                }
+                ev["o"] = o;
+                ctx.emit_(ev);
+                break;  // a behaviour ends with its send
             } else {
                 fprintf(stderr, "sce: unknown op %s\n", qPrintable(a));
                 return 2;
